@@ -293,9 +293,15 @@ def _simpler(case):
             j = sum(1 for kk, _ in items[:i] if kk != "n")
             c["wall"] = case["wall"][:j] + case["wall"][j + 1:] or None
         yield c
+    # canonicalise: replace an item by an earlier one of its alphabet (kept only if the clause persists)
+    payloads, noises = list(A.PAYLOADS), list(A.NOISE)
     for i, (k, n) in enumerate(items):
-        if k != "n" and n in A.PAYLOADS and n != "p_flat":
-            yield dict(case, items=items[:i] + [[k, "p_flat"]] + items[i + 1:])
+        alpha = noises if k == "n" else payloads
+        upto = alpha.index(n) if n in alpha else len(alpha)
+        for m in alpha[:upto]:
+            yield dict(case, items=items[:i] + [[k, m]] + items[i + 1:])
+            if sum(1 for it in items if it == [k, n]) > 1:  # all occurrences at once (failures that need a repeat)
+                yield dict(case, items=[[k, m] if it == [k, n] else it for it in items])
 
 
 def violations_of(res):
